@@ -72,9 +72,30 @@ theorem pcE_head40 (esc : Bool) (x : Nat) (hx : x ≠ 92) : ∃ h tl, pcE esc x 
     | false => rw [pcE_false]; exact hpc
     | true => rw [pcE_nonascii x (by omega)]; exact ⟨92, _, rfl, by decide⟩
 
-theorem R_escape_head40 (esc : Bool) (as : List Atom) (hne : as ≠ []) (hb : AtomsOK as) :
-    ∃ h tl, R (E esc (escapeSymbols (untok as))) = h :: tl ∧ h ≠ 40 := by
-  rw [R_escapeSymbols esc as hb]
+theorem pcV_head40 (v esc : Bool) (x : Nat) (hx : x ≠ 92) : ∃ h tl, pcV v esc x = h :: tl ∧ h ≠ 40 := by
+  cases v with
+  | false => exact pcE_head40 esc x hx
+  | true =>
+    by_cases h : x < 128
+    · rw [pcV_ascii esc x h]
+      by_cases h35 : x = 35
+      · simp only [h35, ite_true]; exact ⟨92, _, rfl, by decide⟩
+      · by_cases h32 : x = 32
+        · simp only [h32]; exact ⟨92, _, rfl, by decide⟩
+        · simp only [h35, h32, ite_false]
+          have := pcE_head40 false x hx
+          rwa [pcE_false] at this
+    · cases esc with
+      | true => rw [pcV_nonascii_esc x (by omega)]; exact ⟨92, _, rfl, by decide⟩
+      | false =>
+        rw [pcV_nonascii_raw x (by omega)]
+        split
+        · exact ⟨92, _, rfl, by decide⟩
+        · exact ⟨x, [], rfl, by omega⟩
+
+theorem R_escape_head40 (v esc : Bool) (as : List Atom) (hne : as ≠ []) (hb : AtomsOK as) :
+    ∃ h tl, RV v (E esc (escapeSymbols (untok as))) = h :: tl ∧ h ≠ 40 := by
+  rw [R_escapeSymbols v esc as hb]
   split
   · exact ⟨92, [92], rfl, by decide⟩
   · rename_i hs
@@ -86,36 +107,36 @@ theorem R_escape_head40 (esc : Bool) (as : List Atom) (hne : as ≠ []) (hb : At
         cases a with
         | chr x =>
           have hx : x ≠ 92 := (hb _ List.mem_cons_self).1
-          obtain ⟨h, tl, hp, hh⟩ := pcE_head40 esc x hx
+          obtain ⟨h, tl, hp, hh⟩ := pcV_head40 v esc x hx
           simp only [untok, List.flatMap_cons, hp]
           exact ⟨h, _, rfl, hh⟩
         | cls k n =>
-          simp only [untok, List.flatMap_cons, pcE_92]
+          simp only [untok, List.flatMap_cons, pcV_92]
           exact ⟨92, _, rfl, by decide⟩
 
-theorem literal_safe (cap esc : Bool) (c : Cluster) (h : PlainBs c) : Safe (R (fmtLiteral (cfgPlain cap esc) c)) := by
-  rw [R_fmtLiteral cap esc c h]
+theorem literal_safe (v cap esc : Bool) (c : Cluster) (h : PlainBs c) : Safe (RV v (fmtLiteral (cfgPlain cap esc) c)) := by
+  rw [R_fmtLiteral v cap esc c h]
   cases c with
   | nil => exact Or.inl rfl
   | cons g gs =>
     obtain ⟨as, hne, hb, rfl⟩ := h _ List.mem_cons_self
-    obtain ⟨x, tl, hp, hx⟩ := R_escape_head40 esc as hne hb
+    obtain ⟨x, tl, hp, hx⟩ := R_escape_head40 v esc as hne hb
     simp only [List.flatMap_cons, value_ofStr, hp]
     exact safe_of_head x _ rfl hx
 
-theorem sub_safe (cap esc : Bool) (outer : Nat) (fb : Bool) (e : Expr) (hP : PP cap esc e)
-    (hs : Safe (R (fmtExpr (cfgPlain cap esc) e))) : Safe (R (fmtSub (cfgPlain cap esc) outer fb e)) := by
+theorem sub_safe (v cap esc : Bool) (outer : Nat) (fb : Bool) (e : Expr) (hP : PP v cap esc e)
+    (hs : Safe (RV v (fmtExpr (cfgPlain cap esc) e))) : Safe (RV v (fmtSub (cfgPlain cap esc) outer fb e)) := by
   rw [fmtSub_eq]
   split
-  · rw [R_append, R_lp]
+  · rw [RV_append, RV_lp]
     cases cap with
     | false => exact Or.inr ⟨40, _, rfl, Or.inr ⟨63, _, rfl, Or.inr rfl⟩⟩
     | true =>
       have hh := hP.head [41] (by simp)
-      rw [R_append]
-      have h41 : R [41] = [41] := by decide
+      rw [RV_append]
+      have h41 : RV v [41] = [41] := by cases v <;> decide
       rw [h41]
-      cases ht : R (fmtExpr (cfgPlain true esc) e) ++ [41] with
+      cases ht : RV v (fmtExpr (cfgPlain true esc) e) ++ [41] with
       | nil => simp at ht
       | cons a r =>
         rw [ht] at hh
@@ -124,44 +145,45 @@ theorem sub_safe (cap esc : Bool) (outer : Nat) (fb : Bool) (e : Expr) (hP : PP 
   · exact hs
 
 mutual
-theorem Expr.safe (cap esc : Bool) : ∀ (e : Expr), e.WF → Safe (R (fmtExpr (cfgPlain cap esc) e))
-  | .lit c, h => by simp only [fmtExpr]; exact literal_safe cap esc c h
+theorem Expr.safe (v cap esc : Bool) : ∀ (e : Expr), e.WF → Safe (RV v (fmtExpr (cfgPlain cap esc) e))
+  | .lit c, h => by simp only [fmtExpr]; exact literal_safe v cap esc c h
   | .cls cs, h => by
-    simp only [fmtExpr]; rw [fmtClass_text]; exact safe_of_head 91 _ rfl (by decide)
+    simp only [fmtExpr]; rw [fmtClass_text v]; exact safe_of_head 91 _ rfl (by decide)
   | .cat a b, h => by
-    have htext : R (fmtExpr (cfgPlain cap esc) (.cat a b)) = R (fmtSub (cfgPlain cap esc) 2 true a) ++ R (fmtSub (cfgPlain cap esc) 2 true b) := by
-      simp only [fmtExpr, R_append]
+    have htext : RV v (fmtExpr (cfgPlain cap esc) (.cat a b)) = RV v (fmtSub (cfgPlain cap esc) 2 true a) ++ RV v (fmtSub (cfgPlain cap esc) 2 true b) := by
+      simp only [fmtExpr, RV_append]
     rw [htext]
-    exact safe_append (sub_safe cap esc 2 true a (Expr.pp cap esc a h.1) (Expr.safe cap esc a h.1))
-      (sub_safe cap esc 2 true b (Expr.pp cap esc b h.2) (Expr.safe cap esc b h.2))
+    exact safe_append (sub_safe v cap esc 2 true a (Expr.pp v cap esc a h.1) (Expr.safe v cap esc a h.1))
+      (sub_safe v cap esc 2 true b (Expr.pp v cap esc b h.2) (Expr.safe v cap esc b h.2))
   | .rep e q, h => by
     obtain ⟨rfl, hnr, hwf⟩ := h
-    have htext : R (fmtExpr (cfgPlain cap esc) (.rep e .question)) = R (fmtSub (cfgPlain cap esc) 3 false e) ++ [63] := by
-      simp only [fmtExpr, R_append, Comp.quantifier, cfgPlain, paint, Gen.strQuestion, Bool.false_eq_true, ite_false,
+    have htext : RV v (fmtExpr (cfgPlain cap esc) (.rep e .question)) = RV v (fmtSub (cfgPlain cap esc) 3 false e) ++ [63] := by
+      simp only [fmtExpr, RV_append, Comp.quantifier, cfgPlain, paint, Gen.strQuestion, Bool.false_eq_true, ite_false,
         List.append_nil]
-      rfl
+      have h63 : RV v [63] = [63] := by cases v <;> decide
+      rw [h63]
     rw [htext]
-    exact safe_append (sub_safe cap esc 3 false e (Expr.pp cap esc e hwf) (Expr.safe cap esc e hwf))
+    exact safe_append (sub_safe v cap esc 3 false e (Expr.pp v cap esc e hwf) (Expr.safe v cap esc e hwf))
       (safe_of_head 63 [] rfl (by decide))
   | .alt os, h => by
     simp only [fmtExpr]
-    exact Expr.safeL cap esc os h.2
-theorem Expr.safeL (cap esc : Bool) : ∀ (os : List Expr), Expr.WFL os → Safe (R (fmtAlt (cfgPlain cap esc) os))
-  | [], _ => Or.inl (by simp [fmtAlt, R_nil])
+    exact Expr.safeL v cap esc os h.2
+theorem Expr.safeL (v cap esc : Bool) : ∀ (os : List Expr), Expr.WFL os → Safe (RV v (fmtAlt (cfgPlain cap esc) os))
+  | [], _ => Or.inl (by simp [fmtAlt, RV_nil])
   | [o], h => by
     have htext : fmtAlt (cfgPlain cap esc) [o] = fmtExpr (cfgPlain cap esc) o := by
       simp only [fmtAlt]; rw [fmtSub_eq, parenQ1_false]; simp
     rw [htext]
-    exact Expr.safe cap esc o h.2.1
+    exact Expr.safe v cap esc o h.2.1
   | o :: o2 :: os, h => by
-    have htext : R (fmtAlt (cfgPlain cap esc) (o :: o2 :: os)) =
-        R (fmtExpr (cfgPlain cap esc) o) ++ ([124] ++ R (fmtAlt (cfgPlain cap esc) (o2 :: os))) := by
+    have htext : RV v (fmtAlt (cfgPlain cap esc) (o :: o2 :: os)) =
+        RV v (fmtExpr (cfgPlain cap esc) o) ++ ([124] ++ RV v (fmtAlt (cfgPlain cap esc) (o2 :: os))) := by
       simp only [fmtAlt]
       rw [fmtSub_eq, parenQ1_false]
-      simp only [Bool.false_eq_true, ite_false, cfgPlain, Comp.pipe, paint, Gen.strPipe, R_append]
-      simp [show R [124] = [124] from by decide]
+      simp only [Bool.false_eq_true, ite_false, cfgPlain, Comp.pipe, paint, Gen.strPipe, RV_append]
+      simp [show RV v [124] = [124] from by cases v <;> decide]
     rw [htext]
-    exact safe_append (Expr.safe cap esc o h.2.1) (safe_of_head 124 _ rfl (by decide))
+    exact safe_append (Expr.safe v cap esc o h.2.1) (safe_of_head 124 _ rfl (by decide))
 end
 
 end Grexv
